@@ -58,7 +58,8 @@ def op_trees(depth=0):
 def cases(draw):
     return {"ctor": draw(st.one_of(st.none(), header_dicts())), "ops": draw(op_trees()),
             "user_agent": draw(st.one_of(st.none(), st.text(string.ascii_letters + "/. ", min_size=1, max_size=8).map(str.strip).filter(bool))),
-            "content_type": draw(st.sampled_from(["application/json-rpc", "application/json"]))}
+            "content_type": draw(st.sampled_from(["application/json-rpc", "application/json"])),
+            "other_thread": draw(st.booleans())}
 
 
 @st.composite
@@ -79,7 +80,8 @@ def chain_cases(draw):
         if draw(st.booleans()):
             ops.append(("call",))
     return {"ctor": small_dict() if draw(st.booleans()) else None, "ops": ops,
-            "user_agent": draw(st.sampled_from([None, "agent/1.0"])), "content_type": "application/json-rpc"}
+            "user_agent": draw(st.sampled_from([None, "agent/1.0"])), "content_type": "application/json-rpc",
+            "other_thread": draw(st.booleans())}
 
 
 class Boom(Exception):
@@ -95,23 +97,34 @@ def oracle(case):
     reply = b'{"jsonrpc": "2.0", "id": 1, "result": true}'
     tr, conns = make_recording_transport(cfg, reply)
     proxy = J.ServerProxy("http://host.example/path", transport=tr, headers=case["ctor"], config=cfg)
-    stats = {"collision": False, "depth": 0, "protected_case": False, "exceptional": False, "requests": 0}
+    stats = {"collision": False, "depth": 0, "protected_case": False, "exceptional": False, "requests": 0, "other_thread": False}
 
     def check_request(stack, style):
         for c in conns:
             del c.sent[:]
-        try:
-            if style == "call":
-                proxy.ping(1)
-            elif style == "notify":
-                proxy._notify.ping(1)
-            else:
-                mc = J.MultiCall(proxy)
-                mc.ping(1)
-                mc.pong()
-                mc()
-        except J.ProtocolError:
-            pass
+        def send():
+            try:
+                if style == "call":
+                    proxy.ping(1)
+                elif style == "notify":
+                    proxy._notify.ping(1)
+                else:
+                    mc = J.MultiCall(proxy)
+                    mc.ping(1)
+                    mc.pong()
+                    mc()
+            except J.ProtocolError:
+                pass
+
+        if case.get("other_thread") and stats["requests"] % 2 == 1:
+            # a proxy may be used by another thread than the one that pushed the headers
+            import threading
+            t = threading.Thread(target=send)
+            t.start()
+            t.join()
+            stats["other_thread"] = True
+        else:
+            send()
         raw = b"".join(bytes(c.sent) for c in conns)
         line, headers, body = split_request(raw)
         stats["requests"] += 1
@@ -181,7 +194,7 @@ def oracle(case):
         fail("C18/stack-not-restored:cascade", "pop_headers assertion failed: the header stack was not what the block expected (%s)" % (ex,))
     nt = stats["collision"] or stats["depth"] >= 3 or stats["protected_case"] or stats["exceptional"]
     classes = ["depth:%d" % min(stats["depth"], 5)]
-    for k in ("collision", "protected_case", "exceptional"):
+    for k in ("collision", "protected_case", "exceptional", "other_thread"):
         if stats[k]:
             classes.append(k)
     return Info(nt=nt, classes=classes, sample={"ctor": case["ctor"], "ops": case["ops"]})
